@@ -180,7 +180,7 @@ mod verif_c01_step {
         kani::cover!(c & 2 != 0);
         kani::cover!(c & 32 != 0);
         kani::cover!(c & 8 != 0);
-        kani::cover!(c & 4 != 0);
+        // (no bottom padding is possible here: 3 lines occupy at least the H = 3 rows of the largest previous frame)
         kani::cover!(c & 64 != 0);
     }
 
